@@ -311,8 +311,9 @@ def run_program(make, program, out, tag, want_spans):
             try:
                 c = m.copy()
             except NotImplementedError:
-                out.exclude("copy_not_implemented")
-                continue
+                # "copy() is independent of the original" for any matcher obtained from any query
+                out.fail("c11.copy_not_implemented", {"tag": tag, "matcher": repr(m)[:200]})
+                return entries
             copies.append((c, pos))
             if 0 < pos < len(entries):
                 nontrivial = True
